@@ -95,12 +95,15 @@ def c15(tier):
 def c03(tier):
     combos = [(0, 1), (1, 1), (1, 2), (2, 1)] if tier == "quick" else [(0, 1), (1, 1), (1, 2), (1, 3), (2, 1), (2, 2), (3, 1)]
     jobs = [Job("h_pack::pack_roundtrip", c, {"hash_order": "two"}, budget_s=3000, validate=40) for c in combos]
+    s2 = [(4, 1, 0), (4, 2, 0), (4, 2, 1)] if tier == "quick" else [(4, 1, 0), (4, 2, 0), (4, 2, 1), (6, 3, 0), (8, 2, 1), (12, 1, 1)]
+    for c in s2:
+        jobs.append(Job("h_c03::commit_reopen", c, dict(S2), budget_s=3000, validate=30))
     return dict(jobs=jobs,
                 bounds={"objects per pack": "0..%d" % max(c[0] for c in combos), "symbolic string length": "0..%d" % max(c[1] for c in combos),
                         "string alphabet": "{ } [ ] , : \" \\ a (each byte symbolic); skeletons: flat object, symbolic key, nested object, array descriptor with non-ASCII literal, patch descriptor",
-                        "combos [objects, maxlen]": [list(c) for c in combos]},
-                assumptions=["kernel level: DataStorage::{write_raw_value, pack, reload, refresh, read_raw_value} over the real MemoryAdapter; the Melda-level commit/reopen is not yet covered",
-                             "floats are outside the claim"],
+                        "combos [objects, maxlen]": [list(c) for c in combos],
+                        "melda level [doc orders, staged updates before the commit, earlier commit present]": [list(c) for c in s2]},
+                assumptions=["floats are outside the claim"] + S2_ASSUME,
                 note="datastorage.rs + memoryadapter.rs from MIR; serde_json serialiser/parser modelled")
 
 
